@@ -1,6 +1,7 @@
 package props
 
 import (
+	"fmt"
 	"go/constant"
 	"go/token"
 	"go/types"
@@ -142,7 +143,7 @@ func c04UsesValue(c ssa.CallInstruction, pred func(ssa.Value) bool) bool {
 
 func c04(r *core.Run) {
 	p := r.P
-	r.Explanation = "Decides on every path: (JWT) the closure that calls Parser.ParseToken reaches next.ServeHTTP only with err == nil ∧ tok.Valid ∧ claims type-ok, every failing arm passes a function that writes 401 on all its paths, every non-registered claim key reaches context.WithValue(ctx, k, v) with a loop-carried ctx that is the context of the request given to next; ParseToken tries {secret, prevSecret} in both orders, retries on failure of the first, tries prevSecret only when non-empty, returns a nil error only after an attempt succeeded; the key function returns the secret it was given; Authorize is given (r, secret, opts.PrevSecret) and engine.appendAuthHandler appends it whenever jwt is enabled. (Signature) for each of DELETE/GET/POST/PUT the gate closure uses next only after ParseContentSecurity err == nil ∧ VerifySignature == CodeSignaturePass (the failure callbacks excepted), the default callback calls next only when !strict and otherwise writes 403 and is installed when no callback is given; ParseContentSecurity succeeds only with a configured decryptor and successful decryption/decoding and takes key and timestamp from the decrypted secret; the MAC input depends on header timestamp, r.Method, path, query and body hash, is keyed with the header key and compared with the header signature; the path/query that enter the MAC are those of r.URL; the timestamp window is two-sided and symmetric (normal form); HmacBase64/Hmac key and feed the MAC with their arguments; engine.signatureVerifier lets a route through unsigned only when signatures are off or (no keys ∧ !Strict). (RPC) Authenticate reaches validate only with metadata present and non-empty app/token lists and values, passes (apps[0], tokens[0]) in that order, all other exits are Unauthenticated; validate returns nil only under (store error ∧ !strict) or token == expected, looks the app up under (a.key, app); both interceptors call the handler only after Authenticate returned nil with the call's context; setupInterceptors installs both when Auth is set with StrictControl as strictness."
+	r.Explanation = "Decides on every path: (JWT) the closure that calls Parser.ParseToken reaches next.ServeHTTP only with err == nil ∧ tok.Valid ∧ claims type-ok, every failing arm passes a function that writes 401 on all its paths, every non-registered claim key (the ignored set may be a switch, a helper or a constant package-level table, which is evaluated) reaches context.WithValue(ctx, k, v) with a loop-carried ctx that is the context of the request given to next; ParseToken, evaluated path by path for an empty and a non-empty prevSecret with every attempt's outcome open (control flow as written: nested ifs, early returns or a loop over the ordered pair; locals in variables, structs or arrays), parses only with secret or a non-empty prevSecret, returns a failure only after every available secret was tried, returns a nil error only with the token of an attempt that succeeded; the key function returns the secret it was given; Authorize is given (r, secret, opts.PrevSecret) and engine.appendAuthHandler appends it whenever jwt is enabled. (Signature) for each of DELETE/GET/POST/PUT (method test as a switch, comparisons, a helper or a lookup in a constant package-level table) the gate closure uses next only after ParseContentSecurity err == nil ∧ VerifySignature == CodeSignaturePass (the failure callbacks excepted), the default callback calls next only when !strict and otherwise writes 403 and is installed when no callback is given; ParseContentSecurity succeeds only with a configured decryptor and successful decryption/decoding and takes key and timestamp from the decrypted secret; the MAC input depends on header timestamp, r.Method, path, query and body hash, is keyed with the header key and compared with the header signature; the path/query that enter the MAC are those of r.URL; the timestamp window is two-sided and symmetric (normal form); HmacBase64/Hmac key and feed the MAC with their arguments; engine.signatureVerifier lets a route through unsigned only when signatures are off or (no keys ∧ !Strict). (RPC) Authenticate reaches validate only with metadata present and non-empty app/token lists and values, passes (apps[0], tokens[0]) in that order, all other exits are Unauthenticated; validate returns nil only under (store error ∧ !strict) or token == expected, looks the app up under (a.key, app); both interceptors call the handler only after Authenticate returned nil with the call's context; setupInterceptors installs both when Auth is set with StrictControl as strictness."
 	r.NotDecided = "cryptographic validity (golang-jwt, crypto/hmac, the RSA decryptor are trusted); effects of the adaptive secret ordering over histories of requests; time-claim validation inside golang-jwt; the cache's 5-minute staleness."
 
 	c04jwt(r, p)
@@ -346,12 +347,12 @@ func c04jwt(r *core.Run, p *core.Prog) {
 					continue
 				}
 				isK := b2IsValue(keyEx)
-				consts := b2StrConstsDeep(f, isK)
+				consts := append(b2StrConstsDeep(f, isK), c04TableStrKeys(f, isK)...)
 				for _, s := range append([]string{"\x00custom-claim"}, consts...) {
 					if c04Registered[s] {
 						continue
 					}
-					cut := core.CutSet(b2AssumeEqDeep(f, isK, s))
+					cut := core.CutSet(c04AssumeEq(f, isK, s))
 					if w, ok := core.Reach(core.Q{From: []core.At{core.After(keyEx)}, Blocked: isWV, Cut: cut, Target: func(in ssa.Instruction) bool {
 						_, isNextIter := in.(*ssa.Next)
 						return isNextIter || core.IsReturn(in) || isNext(in)
@@ -491,133 +492,134 @@ func c04jwt(r *core.Run, p *core.Prog) {
 		}
 		return false
 	}
-	secretArg := func(c ssa.CallInstruction) ssa.Value { a := core.Args(c); return core.Forward(a[len(a)-1]) }
 
-	r.Check("D2/K1/prev-secret-retry", "ParseToken: the two attempts use {secret, prevSecret} in both orders; a failed first attempt is followed by the second before any return; prevSecret is tried only when non-empty; a lone attempt uses secret; a nil error is returned only after an attempt succeeded and with that attempt's token", func(o *core.O) {
+	r.Check("D2/K1/prev-secret-retry", "ParseToken, evaluated path by path for (secret, prevSecret) = (S, \"\") and (S, P) with the outcome of every attempt left open: every attempt parses the incoming request with secret or with a non-empty prevSecret; a failure is returned only after every available secret has been tried (a failed first attempt is followed by the other secret before any return); a nil error is returned only after an attempt succeeded and with that attempt's token — whatever the control flow is spelled like (nested ifs, early returns, a loop over the ordered pair)", func(o *core.O) {
 		if !o.Need(pt != nil && len(pt.Params) == 4 && len(doFns) > 0, "(*token.Parser).ParseToken(r, secret, prevSecret) and the function calling request.ParseFromRequest") {
 			return
 		}
 		r.Fn(core.FuncName(pt))
-		isSecret, isPrev := b2Param(pt, 2), b2Param(pt, 3)
 		calls := core.Calls(pt, isDo)
 		o.Site(len(calls), core.FuncName(pt))
 		if len(calls) == 0 {
 			o.Fail(p.Pos(pt.Pos()), "ParseToken never parses")
 			return
 		}
-		paired := map[ssa.CallInstruction]bool{}
-		pairs := 0
-		for _, c1 := range calls {
-			for _, c2 := range calls {
-				if c1 == c2 {
-					continue
-				}
-				if _, ok := core.Reach(core.Q{From: []core.At{core.After(c1)}, Target: core.Is(c2)}); !ok {
-					continue
-				}
-				pairs++
-				paired[c1], paired[c2] = true, true
-				s1, s2 := secretArg(c1), secretArg(c2)
-				ph1, ok1 := s1.(*ssa.Phi)
-				ph2, ok2 := s2.(*ssa.Phi)
-				var combos [][2]ssa.Value
-				switch {
-				case ok1 && ok2 && ph1.Block() == ph2.Block():
-					for i := range ph1.Edges {
-						combos = append(combos, [2]ssa.Value{ph1.Edges[i], ph2.Edges[i]})
-					}
-				case !ok1 && !ok2:
-					combos = append(combos, [2]ssa.Value{s1, s2})
-				default:
-					o.Unres("attempt secrets %s / %s: shape not understood", core.Describe(s1), core.Describe(s2))
-					continue
-				}
-				orders := map[string]bool{}
-				for _, cb := range combos {
-					switch {
-					case isSecret(cb[0]) && isPrev(cb[1]):
-						orders["secret-first"] = true
-					case isPrev(cb[0]) && isSecret(cb[1]):
-						orders["prev-first"] = true
-					default:
-						o.Fail(p.InstrPos(c2), "the two attempts use (%s, %s) instead of {secret, prevSecret}: one of the secrets is never tried", core.Describe(cb[0]), core.Describe(cb[1]))
-					}
-				}
-				// retry: after a failed first attempt every path to a return passes another attempt
-				_, failed := core.EdgesOf(pt, core.ErrNil(1, core.Is(c1)))
-				if len(failed) == 0 {
-					o.Fail(p.InstrPos(c1), "the first attempt's error is not tested")
-				}
-				if w, ok := core.Reach(core.Q{From: b2Heads(failed), Target: core.IsReturn, Blocked: isDo}); ok {
-					o.Fail(p.InstrPos(w), "after the first secret failed ParseToken returns without trying the other secret")
-				}
-			}
-		}
-		if pairs == 0 {
-			o.Fail(p.Pos(pt.Pos()), "ParseToken never tries a second secret")
-		}
 		for _, c := range calls {
-			s := secretArg(c)
-			mayPrev := isPrev(s)
-			if ph, ok := s.(*ssa.Phi); ok {
-				for _, e := range ph.Edges {
-					if isPrev(e) {
-						mayPrev = true
-					}
-				}
-			}
-			if mayPrev || paired[c] {
-				if w := core.Requires(pt, core.Is(c), b2NonEmpty(isPrev)); w != nil {
-					o.Fail(p.InstrPos(c), "prevSecret is tried although it may be empty (a token signed with the empty key would verify)")
-				}
-			}
-			if !paired[c] && !isSecret(s) {
-				o.Fail(p.InstrPos(c), "the only attempt on this path uses %s, not secret", core.Describe(s))
-			}
 			if len(core.Args(c)) >= 3 && !b2Param(pt, 1)(core.Args(c)[1]) {
 				o.Fail(p.InstrPos(c), "the attempt does not parse the incoming request")
 			}
 		}
-		okRet := b2RetConst(1, "nil")
-		if len(core.Instrs(pt, okRet)) == 0 {
-			o.Fail(p.Pos(pt.Pos()), "ParseToken never succeeds")
-		}
-		if w := core.Requires(pt, okRet, core.ErrNil(1, isDo)); w != nil {
-			o.Fail(p.InstrPos(w), "ParseToken returns a nil error on a path where no attempt succeeded (caller dereferences a nil/unverified token)")
-		}
-		for _, ret := range core.Returns(pt) {
-			if !okRet(ret) {
-				if b2MayBeNil(core.Result(ret, 1)) {
-					o.Fail(p.InstrPos(ret), "error result may be nil on a failure return")
-				}
-				continue
+		const markS, markP = "\x00c04-current-secret", "\x00c04-previous-secret"
+		said := map[string]bool{}
+		fail := func(where, format string, a ...any) {
+			msg := fmt.Sprintf(format, a...)
+			if !said[where+msg] {
+				said[where+msg] = true
+				o.Fail(where, "%s", msg)
 			}
-			var srcs []ssa.Value
-			if ph, ok := core.Result(ret, 0).(*ssa.Phi); ok {
-				srcs = ph.Edges
-			} else {
-				srcs = []ssa.Value{core.Result(ret, 0)}
+		}
+		for _, sc := range []struct {
+			prev string
+			need []string
+			what string
+		}{{"", []string{markS}, "prevSecret empty"}, {markP, []string{markS, markP}, "prevSecret set"}} {
+			ex := &c04Exec{Fn: pt, IsEvent: func(c ssa.CallInstruction) bool { return isDo(c) },
+				Params: map[*ssa.Parameter]c04SV{pt.Params[2]: constant.MakeString(markS), pt.Params[3]: constant.MakeString(sc.prev)}}
+			ex.Run()
+			if ex.Incomplete != "" {
+				o.Unres("ParseToken (%s) cannot be evaluated path by path: %s", sc.what, ex.Incomplete)
+				return
 			}
-			for i, s := range srcs {
-				if !core.IsResult(s, 0, isDo) {
-					o.Fail(p.InstrPos(ret), "the token returned with a nil error is %s, not the result of an attempt", core.Describe(s))
-					continue
+			name := func(s string) string {
+				switch s {
+				case markS:
+					return "secret"
+				case markP:
+					return "prevSecret"
 				}
-				// the token must come from an attempt whose success was established on that incoming path
-				if ph, ok := core.Result(ret, 0).(*ssa.Phi); ok {
-					c, _ := core.ResultOf(core.Forward(s))
-					hold, _ := core.EdgesOf(pt, core.ErrNil(1, core.Is(c)))
-					pred := ph.Block().Preds[i]
-					okPath := false
-					for _, e := range hold {
-						if e.To == pred || (e.From == pred && e.To == ph.Block()) || e.To.Dominates(pred) {
-							okPath = true
+				return fmt.Sprintf("%q", s)
+			}
+			attempts := 0
+			for _, end := range ex.Ends {
+				if end.Ret == nil || len(end.Results) != 2 {
+					continue // a panic forwards nothing
+				}
+				tried := map[string]bool{}
+				var okTok []c04SV // tokens of the attempts known to have succeeded on this path
+				untestedTok := map[*c04Opaque]c04SV{}
+				for _, ev := range end.Events {
+					attempts++
+					sec, isConst := ev.Args[len(ev.Args)-1].(constant.Value)
+					switch {
+					case !isConst || sec.Kind() != constant.String:
+						fail(p.InstrPos(ev.Call), "an attempt uses %s, which is neither secret nor prevSecret", c04Show(ev.Args[len(ev.Args)-1]))
+					case constant.StringVal(sec) == "":
+						fail(p.InstrPos(ev.Call), "prevSecret is tried although it may be empty (a token signed with the empty key would verify)")
+					case constant.StringVal(sec) != markS && constant.StringVal(sec) != markP:
+						fail(p.InstrPos(ev.Call), "an attempt uses the constant %s, which is neither secret nor prevSecret", sec.ExactString())
+					default:
+						tried[constant.StringVal(sec)] = true
+					}
+					if len(ev.Res) != 2 {
+						continue
+					}
+					if eo, ok := ev.Res[1].(*c04Opaque); ok {
+						if isNil, known := end.Facts[c04NilKey(eo)]; known && isNil {
+							okTok = append(okTok, ev.Res[0])
+						} else if !known {
+							untestedTok[eo] = ev.Res[0]
 						}
 					}
-					if !okPath {
-						o.Fail(p.InstrPos(ret), "the returned token is the one of a failed attempt")
+				}
+				isOK := func(tok c04SV) bool {
+					for _, t := range okTok {
+						if t == tok {
+							return true
+						}
+					}
+					return false
+				}
+				complete := func() {
+					if len(end.Events) == 0 || len(okTok) > 0 {
+						return
+					}
+					for _, s := range sc.need {
+						if !tried[s] {
+							if len(sc.need) == 2 {
+								fail(p.InstrPos(end.Ret), "after the first secret failed ParseToken returns without trying the other secret (%s is never tried on this path)", name(s))
+							} else {
+								fail(p.InstrPos(end.Ret), "the only attempt on this path does not use secret")
+							}
+						}
 					}
 				}
+				tok, err := end.Results[0], end.Results[1]
+				errNil, errKnown := false, false
+				eo, isOpaque := err.(*c04Opaque)
+				if _, isNilConst := err.(c04NilV); isNilConst {
+					errNil, errKnown = true, true
+				} else if isOpaque {
+					errNil, errKnown = end.Facts[c04NilKey(eo)]
+				}
+				switch {
+				case errKnown && errNil:
+					if len(okTok) == 0 {
+						fail(p.InstrPos(end.Ret), "ParseToken returns a nil error on a path where no attempt succeeded (caller dereferences a nil/unverified token)")
+					} else if !isOK(tok) {
+						fail(p.InstrPos(end.Ret), "the token returned with a nil error is %s, not the token of the attempt that succeeded", c04Show(tok))
+					}
+				case isOpaque && !errKnown && untestedTok[eo] != nil:
+					// an attempt's (token, error) handed on untested: faithful when it is that attempt's pair
+					if untestedTok[eo] != tok {
+						fail(p.InstrPos(end.Ret), "the token returned is %s, not the result of the attempt whose error is returned", c04Show(tok))
+					}
+					complete()
+				default:
+					complete()
+				}
+			}
+			if attempts == 0 {
+				fail(p.Pos(pt.Pos()), "ParseToken never parses (%s)", sc.what)
 			}
 		}
 	})
@@ -792,7 +794,7 @@ func c04sig(r *core.Run, p *core.Prog) {
 			parseOK := core.ErrNil(1, isParseCS)
 			sigOK := core.Cmp(token.EQL, func(v ssa.Value) bool { return core.IsResult(v, 0, isVerify) }, core.IsConstInt(passCode))
 			for _, m := range []string{"DELETE", "GET", "POST", "PUT"} {
-				assume := b2AssumeEqDeep(g, isM, m)
+				assume := c04AssumeEq(g, isM, m)
 				for _, at := range []struct {
 					a    core.Atom
 					what string
@@ -1035,6 +1037,12 @@ func c04sig(r *core.Run, p *core.Prog) {
 				return
 			}
 			seen[v] = true
+			// a part held in a field of a local struct (written once, possibly copied once as a
+			// whole into a value receiver) is the value stored into that field
+			if fv := core.ForwardField(v); fv != v {
+				walk(fv)
+				return
+			}
 			switch x := v.(type) {
 			case *ssa.Call:
 				n := core.CalleeName(x)
